@@ -37,7 +37,26 @@ pub fn dec_case(body: &str) -> Option<Case> {
 ///   S <subst> A <resolved query | panic> C <counter> O <hex stdout>
 ///   N C <counter> O <hex stdout>
 ///   P O <hex stdout>          (panic; the run stops)
+thread_local! { pub static FRESH_VIOLATION: std::cell::RefCell<Option<String>> = std::cell::RefCell::new(None); }
+
+/// largest variable id that occurs in a substitution set (as a bound slot or inside a bound term)
+fn max_id_term(t: &Unifiable) -> usize {
+    match t {
+        Unifiable::LogicVar{id, ..} => *id,
+        Unifiable::SComplex(a) => a.iter().map(max_id_term).max().unwrap_or(0),
+        Unifiable::SFunction{terms, ..} => terms.iter().map(max_id_term).max().unwrap_or(0),
+        Unifiable::SLinkedList{term, next, ..} => max_id_term(term).max(max_id_term(next)),
+        _ => 0,
+    }
+}
+pub fn max_id(ss: &SubstitutionSet) -> usize {
+    let mut m = 0;
+    for (i, e) in ss.iter().enumerate() { if let Some(t) = e { m = m.max(i).max(max_id_term(t)); } }
+    m
+}
+
 pub fn run_impl(c: &Case, cap: &mut crate::capture::Capture) -> (String, Vec<Option<String>>, Vec<String>) {
+    FRESH_VIOLATION.with(|v| *v.borrow_mut() = None);
     let mut recs: Vec<String> = vec![];
     let mut answers: Vec<Option<String>> = vec![];   // resolved answers (None = "no more"), for oracles
     let mut outs: Vec<String> = vec![];
@@ -57,7 +76,7 @@ pub fn run_impl(c: &Case, cap: &mut crate::capture::Capture) -> (String, Vec<Opt
         let r = catch_unwind(AssertUnwindSafe(|| {
             match next_solution(Rc::clone(&sn)) { Some(ss) => Some((*ss).clone()), None => None }
         }));
-        let o = cap.take();
+        let o = canon_elapsed(&cap.take());
         match r {
             Err(_) => { recs.push("P".to_string()); outs.push(o); break; },
             Ok(None) => {
@@ -73,6 +92,12 @@ pub fn run_impl(c: &Case, cap: &mut crate::capture::Capture) -> (String, Vec<Opt
                 break;
             },
             Ok(Some(ss)) => {
+                // every variable of the search so far was issued by the counter: none may lie above it
+                // (a clause fetched next would otherwise be given a variable that is already in use)
+                if max_id(&ss) > get_var_id() {
+                    FRESH_VIOLATION.with(|v| { let mut v = v.borrow_mut(); if v.is_none() {
+                        *v = Some(format!("after answer {} the variable counter is {} but variable {} is in use in the substitution set: the next clause would be given a variable that is not fresh", answers.len() + 1, get_var_id(), max_id(&ss))); } });
+                }
                 let a = match catch_unwind(AssertUnwindSafe(|| q.replace_variables(&ss))) { Ok(t) => term_str(&t), Err(_) => "panic".to_string() };
                 cap.take();
                 recs.push(format!("S {} A {} C {} O {}", enc_subst(&ss), a, get_var_id(), hex(&o)));
@@ -81,6 +106,24 @@ pub fn run_impl(c: &Case, cap: &mut crate::capture::Capture) -> (String, Vec<Opt
         }
     }
     (recs.join(" ; "), answers, outs)
+}
+
+/// `time(G)` writes `N seconds M microseconds ` (`1 second ...`): replaced by the placeholder the model writes
+pub fn canon_elapsed(o: &str) -> String {
+    let cs: Vec<char> = o.chars().collect();
+    let mut out = String::new(); let mut i = 0;
+    let lit = |cs: &Vec<char>, at: usize, w: &str| -> bool { let wc: Vec<char> = w.chars().collect(); at + wc.len() <= cs.len() && cs[at..at + wc.len()] == wc[..] };
+    while i < cs.len() {
+        // every timed goal of the generated programs takes less than a second: the count of seconds is the
+        // single character `0` (text printed just before it may end in digits of its own)
+        if cs[i] == '0' && lit(&cs, i + 1, " seconds ") {
+            let k = i + 10;
+            let mut m = k; while m < cs.len() && cs[m].is_ascii_digit() { m += 1; }
+            if m > k && lit(&cs, m, " microseconds ") { out.push_str("<elapsed>"); i = m + 14; continue; }
+        }
+        out.push(cs[i]); i += 1;
+    }
+    out
 }
 
 pub struct Cfg { pub props: Vec<String> }
@@ -120,6 +163,11 @@ pub fn emit_info(out: &mut Out, cfg: &Cfg, c: &Case) -> Option<RunInfo> {
         }
         if seen_none { out.oracle(id, "C05", ok, &msg); }
     }
+    if cfg.want("C10") || cfg.want("C01") {
+        let v = FRESH_VIOLATION.with(|v| v.borrow().clone());
+        let p = if cfg.want("C10") { "C10" } else { "C01" };
+        match v { Some(m) => out.oracle(id, p, false, &m), None => if cfg.want("C10") { out.oracle(id, "C10", true, "") } }
+    }
     let substs = substs_of(&rec);
     Some(RunInfo{id, rec, answers, outs, substs})
 }
@@ -127,10 +175,10 @@ pub fn emit_info(out: &mut Out, cfg: &Cfg, c: &Case) -> Option<RunInfo> {
 // ------------------------------------------------------------------ program generator
 
 #[derive(Clone)]
-pub struct Weights { pub cut: usize, pub not: usize, pub print: usize, pub lists: usize, pub arith: usize, pub or: usize, pub anon: bool }
+pub struct Weights { pub cut: usize, pub not: usize, pub print: usize, pub lists: usize, pub arith: usize, pub or: usize, pub anon: bool, pub time: usize, pub cut_in_not: bool }
 impl Weights {
-    pub fn pure_() -> Weights { Weights{cut: 0, not: 0, print: 0, lists: 2, arith: 2, or: 3, anon: true} }
-    pub fn all() -> Weights { Weights{cut: 3, not: 2, print: 2, lists: 2, arith: 2, or: 3, anon: true} }
+    pub fn pure_() -> Weights { Weights{cut: 0, not: 0, print: 0, lists: 2, arith: 2, or: 3, anon: true, time: 0, cut_in_not: false} }
+    pub fn all() -> Weights { Weights{cut: 3, not: 2, print: 2, lists: 2, arith: 2, or: 3, anon: true, time: 0, cut_in_not: false} }
 }
 
 fn pname(i: usize) -> String { format!("p{}", i) }
@@ -149,6 +197,7 @@ fn gen_arg(r: &mut Rng, w: &Weights, allow_var: bool) -> Unifiable {
         let tail = if allow_var && n > 0 && r.chance(1, 3) { Some(lv(*r.pick(&VARS))) } else { None };
         return proper_list(e, tail);
     }
+    if allow_var && r.chance(1, 2) { return scomplex!(atom!("f"), lv(*r.pick(&VARS))); }
     scomplex!(atom!("f"), gen_arg(r, w, allow_var))
 }
 
@@ -196,7 +245,7 @@ fn gen_goal(r: &mut Rng, w: &Weights, arities: &[usize], level: usize, depth: us
     if level + 1 < npred { choices.push((40, 3)); }
     if depth < 2 { choices.push((10, 4)); choices.push((w.or * 3, 5)); }
     choices.push((w.cut * 4, 6)); choices.push((w.not * 4, 7)); choices.push((w.print * 4, 8));
-    choices.push((w.arith * 3, 9)); choices.push((w.lists * 3, 10)); choices.push((3, 11));
+    choices.push((w.arith * 3, 9)); choices.push((w.lists * 3, 10)); choices.push((3, 11)); choices.push((w.time * 4, 12));
     let total: usize = choices.iter().map(|c| c.0).sum();
     let mut k = r.below(total);
     let mut pick = 0u8;
@@ -242,8 +291,8 @@ fn gen_goal(r: &mut Rng, w: &Weights, arities: &[usize], level: usize, depth: us
         },
         6 => bip0("!"),
         7 => {
-            // no cut inside not(...)
-            let mut w2 = w.clone(); w2.cut = 0; w2.print = 0;
+            // no cut inside not(...) unless the run asks for it (the reference machine is then not consulted)
+            let mut w2 = w.clone(); if !w.cut_in_not { w2.cut = 0; } else { w2.cut = w2.cut.max(6); } w2.print = 0;
             Goal::OperatorGoal(Operator::Not(vec![gen_goal(r, &w2, arities, level, depth + 1)]))
         },
         8 => match r.below(3) {
@@ -269,6 +318,10 @@ fn gen_goal(r: &mut Rng, w: &Weights, arities: &[usize], level: usize, depth: us
             1 => bip("count", vec![gen_arg(r, w, true), lv(*r.pick(&VARS))]),
             2 => bip("include", vec![gen_arg(r, w, true), gen_arg(r, w, true), lv(*r.pick(&VARS))]),
             _ => bip("functor", vec![gen_arg(r, w, true), lv(*r.pick(&VARS))]),
+        },
+        12 => {
+            let mut w2 = w.clone(); w2.cut = 0; w2.time = 0;
+            Goal::OperatorGoal(Operator::Time(vec![gen_goal(r, &w2, arities, level, depth + 1)]))
         },
         _ => bip0("fail"),
     }
@@ -319,6 +372,7 @@ pub fn alphabet() -> Vec<Goal> {
         Goal::ComplexGoal(scomplex!(atom!("g"), y())),
         bip("less_than", vec![x(), SInteger(2)]),
         Goal::ComplexGoal(scomplex!(atom!("c"), x())),
+        Goal::ComplexGoal(scomplex!(atom!("r"), x())),
     ]
 }
 
@@ -340,6 +394,8 @@ pub fn run_exhaustive(out: &mut Out, cfg: &Cfg, shard: usize, nshards: usize) {
     let fact = |f: &str, v: Unifiable| Rule{head: scomplex!(atom!(f), v), body: Goal::Nil};
     // c/1 has a cut of its own: `c($X) :- g($X), !.`  (cut in a callee must not affect the caller)
     let crule = Rule{head: scomplex!(atom!("c"), lv("$X")), body: and(vec![Goal::ComplexGoal(scomplex!(atom!("g"), lv("$X"))), bip0("!")])};
+    // r/1 is defined by a rule whose body has several answers: `r($X) :- g($X).`
+    let rrule = Rule{head: scomplex!(atom!("r"), lv("$X")), body: Goal::ComplexGoal(scomplex!(atom!("g"), lv("$X")))};
     let mut idx = 0usize;
     for b in bodies {
         idx += 1;
@@ -350,7 +406,7 @@ pub fn run_exhaustive(out: &mut Out, cfg: &Cfg, shard: usize, nshards: usize) {
             let other = fact("t", atom!("other"));
             let mut rules = if body_first { vec![main, other] } else { vec![other, main] };
             rules.extend(vec![fact("g", SInteger(1)), fact("g", SInteger(2)), fact("h", SInteger(2)), fact("h", SInteger(3)),
-                              crule.clone(), fact("c", SInteger(3))]);
+                              crule.clone(), fact("c", SInteger(3)), rrule.clone()]);
             let c = Case{rules, query: vec![atom!("t"), lv("$X")], max_calls: 40, extra: 2};
             emit(out, cfg, &c);
         }
